@@ -901,6 +901,13 @@ bool run_case_t(u64 c, vh::rng& r, const vh::args& a, bool small) {
         const auto d = 1 + rr.below(3);
         for (u64 j = 0; j < d; ++j) q.changes.push_back({-1, 1 + rr.below(b.steps + 10)});
         g_exec_desc = "pct d=" + std::to_string(d) + " #" + std::to_string(k);
+        if (k % 4 == 1) {
+          // preemptions aimed at the windows right before lock-word writes and QSBR updates
+          using namespace unodb::verif;
+          const double pr = 0.04 + 0.06 * static_cast<double>(rr.below(3));
+          q.kind_demote = {{LOCK_CAS, pr}, {LOCK_UNLOCK, pr}, {LOCK_OBSOLETE, pr}, {ORPHAN_XCHG, pr}, {ORPHAN_CAS, pr}, {QSBR_STATE_CAS, pr}};
+          g_exec_desc += " +kind-demote";
+        }
       }
       const auto e = execute<Db>(p, vh::case_seed(rep().seed, c, 100 + k), q);
       note(e);
